@@ -4,7 +4,7 @@ use super::common::*;
 use crate::case::Case;
 use crate::gen::opts::OptDomain;
 use crate::rng::Rng;
-use crate::run::{Obs, Prop, RunCfg, Verdict};
+use crate::run::{Obs, Prop, RunCfg, Verdict, Worker};
 
 fn gen(r: &mut Rng, _cfg: &RunCfg) -> Case {
     let part = |r: &mut Rng| -> String {
@@ -70,6 +70,20 @@ pub fn check(case: &Case, obs: &mut Obs) -> Verdict {
     if wab.len() < paras {
         return Verdict::Violated(format!("{} output lines for {} input paragraphs", wab.len(), paras));
     }
+    // options passed by reference must behave like options passed by value
+    {
+        let built = o.build();
+        let by_ref = owned(textwrap::wrap(&ab, &built));
+        obs.calls += 1;
+        if by_ref != wab {
+            return Verdict::Violated(format!("wrap(text, &options) differs from wrap(text, options): {:?} vs {:?}", by_ref, wab));
+        }
+        let f_ref = textwrap::fill(&ab, &built);
+        obs.calls += 1;
+        if f_ref != wab.join(e) {
+            return Verdict::Violated(format!("fill(text, &options) != wrap lines joined by the line ending: {:?} vs {:?}", f_ref, wab.join(e)));
+        }
+    }
     let filled = textwrap::fill(&ab, o.build());
     obs.calls += 1;
     if filled != wab.join(e) {
@@ -110,15 +124,24 @@ pub fn check(case: &Case, obs: &mut Obs) -> Verdict {
     )
 }
 
+fn extra(cfg: &RunCfg, w: &mut Worker) {
+    corpus_subrun(cfg, w, |i, paras, width, v| {
+        if i + 2 >= paras.len() {
+            return None;
+        }
+        grid_variant(v, i, width, false).map(|o| Case::new("rel").text(paras[i].clone()).text(paras[i + 1].clone()).text(paras[i + 2].clone()).opt(o))
+    });
+}
+
 pub fn prop() -> Prop {
     Prop {
         id: "C09",
-        rule: "cases = triples (a, a', b) of possibly empty / multi-paragraph hostile texts with one option set; relations between wrap(a), wrap(a+E+b), wrap(a'+E+b), wrap(b), fill and the LF/CRLF substitution are checked (7 library calls per case); non-trivial = some side wraps to >= 2 lines; distinct = (option shape, line buckets of both sides, emptiness of a and b, paragraph bucket)",
+        rule: "cases = triples (a, a', b) of possibly empty / multi-paragraph hostile texts with one option set; relations between wrap(a), wrap(a+E+b), wrap(a'+E+b), wrap(b), fill and the LF/CRLF substitution are checked (9-10 library calls per case, options passed by value and by reference); non-trivial = some side wraps to >= 2 lines; distinct = (option shape, line buckets of both sides, emptiness of a and b, paragraph bucket)",
         gen,
         check,
         panic_is_violation: false,
         budget: (900000, 24000000),
-        extra: None,
+        extra: Some(extra),
         required: &["wrapped_paragraph", "empty_side", "multi_paragraph_side", "empty_indent_equals_wrap_b"],
         known: None,
     }
